@@ -1,6 +1,7 @@
 package main
 
 import (
+	"crypto/sha256"
 	"fmt"
 	"go/token"
 	"go/types"
@@ -48,6 +49,9 @@ func infra(format string, args ...interface{}) {
 }
 
 var normRound int
+
+// normSignature identifies the rewrites applied during the current load (used to skip normal-form levels that coincide).
+var normSignature string
 
 // normInline enables the tail-call inlining normalisation (normalise_inline.go). It changes which functions exist, so
 // it is used only as a second attempt: a check that does not come out clean on the program as written is repeated on
@@ -155,6 +159,20 @@ func loadWorld(repoDir string, overlay map[string][]byte, goarch string) *World 
 				for k, v := range extra {
 					os.WriteFile(filepath.Join(d, fmt.Sprintf("r%d_%s", normRound, filepath.Base(k))), v, 0o644)
 				}
+			}
+			{
+				// identify the normal form by what was rewritten
+				var ks []string
+				for k := range extra {
+					ks = append(ks, k)
+				}
+				sort.Strings(ks)
+				h := sha256.New()
+				for _, k := range ks {
+					h.Write([]byte(k))
+					h.Write(extra[k])
+				}
+				normSignature += fmt.Sprintf("%x;", h.Sum(nil)[:8])
 			}
 			normRound++
 			w2 := tryLoadNormalised(repoDir, merged, goarch)
